@@ -329,7 +329,60 @@ pub fn run_c11(tier: &str) -> Report {
         })
         .collect();
     rep.sink.extend(vs);
-    rep.set("evaluations", json!(cells.len() as u64 * 12));
+    // locate, then draw: the cell a lookup returns is drawn right away on the same (fresh) thread. The
+    // points are cell corners and edge midpoints (lookups there are often answered by a later probe or
+    // by the nearest-cell fallback) and interior points; the ring of the answered cell must pass the
+    // same tests as any other ring (in particular surround the cell's centre).
+    let located;
+    {
+        let src: Vec<u64> = rc::all_cells(3).into_iter().step_by(if tier == "quick" { 9 } else { 2 }).collect();
+        let mut jobs: Vec<(f64, f64, i32)> = Vec::new();
+        for (k, &c) in src.iter().enumerate() {
+            if let Ok(ring) = subj::boundary(c, false, Some(2)) {
+                for (j, &(lon, lat)) in ring.iter().enumerate() {
+                    for r in [4 + ((k + j) % 3) as i32, 9 + ((k + 2 * j) % 7) as i32, 20 + ((k + j) % 10) as i32] {
+                        jobs.push((lon, lat, r));
+                    }
+                }
+            }
+            if let Ok((lon, lat)) = subj::centre(c) {
+                jobs.push((lon, lat, 5 + (k % 20) as i32));
+            }
+        }
+        located = jobs.len() as u64;
+        let vs: Vec<Viol> = jobs
+            .par_iter()
+            .flat_map(|&(lon, lat, r)| {
+                std::thread::scope(|sc| {
+                    sc.spawn(|| {
+                        let id = match subj::lookup(lon, lat, r) {
+                            Ok(id) if rc::resolution(id) == Some(r) => id,
+                            _ => return vec![], // C01's business
+                        };
+                        let fine = match geo::ring_vectors(id, 64) {
+                            Ok(f) => f,
+                            Err(e) => return vec![viol("C11/boundary-error", e, idcase(id))],
+                        };
+                        let w = Mutex::new(0.0f64);
+                        check_ring(id, &fine, &w)
+                            .into_iter()
+                            .map(|mut v| {
+                                v.what = format!("{} [ring drawn right after lonlat_to_cell({}, {}, {}) returned this cell on the same thread]", v.what, lon, lat, r);
+                                v.case = json!({"kind": "located", "lon": lon, "lat": lat, "res": r});
+                                v
+                            })
+                            .take(1)
+                            .collect()
+                    })
+                    .join()
+                    .unwrap()
+                })
+            })
+            .collect();
+        rep.sink.extend(vs);
+    }
+    rep.set("cells_drawn_right_after_being_located", json!(located));
+    rep.set("evaluations", json!(cells.len() as u64 * 12 + located));
     rep.set("distinct_nontrivial", json!(cells.len() as u64));
     rep.set("rule", json!(format!("every cell of resolution 0..{} + {} pole/antimeridian cells found by lookup at r={}..29 + {} family cells, each x closed/open x segments in {{1,2,3,7,64,default}}: length, closure, finiteness, latitude range, counter-clockwise (independent signed area), centre inside (winding number), 180-degree longitude window unless a pole is inside or within 1e-3 cell sizes of the fine ring, corner points identical for every n; distinct_nontrivial = distinct cells", rmax, nspecial, rmax + 1, nfam)));
     rep.set("exhaustive", json!(true));
@@ -429,6 +482,22 @@ pub fn run_c12(tier: &str) -> Report {
 }
 
 pub fn replay(prop: &str, case: &Value) -> Vec<Viol> {
+    if prop == "C11" && case["kind"] == "located" {
+        let (lon, lat, r) = (case["lon"].as_f64().unwrap(), case["lat"].as_f64().unwrap(), case["res"].as_i64().unwrap() as i32);
+        let case2 = case.clone();
+        return std::thread::spawn(move || {
+            let id = match subj::lookup(lon, lat, r) {
+                Ok(id) => id,
+                Err(_) => return vec![],
+            };
+            match geo::ring_vectors(id, 64) {
+                Ok(f) => check_ring(id, &f, &Mutex::new(0.0)),
+                Err(e) => vec![viol("C11/boundary-error", e, case2)],
+            }
+        })
+        .join()
+        .unwrap_or_default();
+    }
     let id = case["id"].as_str().or(case["parent"].as_str()).map(|s| u64::from_str_radix(s, 16).unwrap());
     match (prop, id) {
         ("C04", Some(c)) => check_area(c, 32, &Mutex::new(0.0)),
